@@ -266,6 +266,12 @@ def _ops(M):
         'delete course': lambda: C[1].delete(),
         'delete refused after cascading to a created object (mixed)': lambda: (M.Tag(id=9, code=900, owner=P[1]), _arm(), P[1].delete()),
         'delete a created object (mixed)': lambda: (cur().state.__setitem__('n', P(id=9, name='x', u=77, group=G[2], courses=[C[1]])), _arm(), cur().state['n'].delete()),
+        'refused delete with pending collection changes (mixed)': lambda: (P[1].courses.remove(C[1]), P[1].courses.add(C[3]), _arm(), P[1].delete()),
+        'set fails after replacing a collection that has pending changes (mixed)': lambda: (P[2].courses.add(C[3]), P[2].courses.remove(C[2]), _arm(), P[2].set(courses=[C[1]], u=10)),
+        'constructor fails after linking to collections with pending changes (mixed)': lambda: (C[3].students.add(P[1]), C[1].students.remove(P[1]), _arm(),
+                                                                                             P(id=9, name='x', u=10, courses=[C[1], C[3]])),
+        'delete after a pending removal on a many-to-many collection (mixed)': lambda: (P[2].courses.remove(C[1]), _arm(), P[2].delete()),
+        'set extends a collection that has a pending addition, then fails (mixed)': lambda: (P[4].courses.add(C[1]), _arm(), P[4].set(courses=[C[1], C[2]], u=10)),
         'delete cascades to created and loaded (mixed)': lambda: (M.Tag(id=9, code=900, owner=P[3]), _arm(), P[3].delete()),
     }
 
@@ -344,6 +350,6 @@ CONTRACTS = [
               'pony.orm.core:SetInstance.remove', 'pony.orm.core:SetInstance.clear', 'pony.orm.core:Entity._delete_', 'pony.orm.core:Attribute.update_reverse',
               'pony.orm.core:Set.reverse_add', 'pony.orm.core:Set.reverse_remove'],
              _hc_configs, _hc_case, [('raise_restores_session_snapshot', _hc_raise_restores), ('only_expected_exceptions', _hc_exception_kind)],
-             level='bounded', bound='32 operations on one model (unique, composite keys, 1-1 required, many-to-one, many-to-many); one injected callee failure per path at every call position',
+             level='bounded', bound='37 operations on one model (unique, composite keys, 1-1 required, many-to-one, many-to-many); one injected callee failure per path at every call position',
              allowed_exc=(Injected, core.CacheIndexError, core.ConstraintError, ValueError, TypeError)),
 ]
